@@ -287,4 +287,17 @@ Section PubInv.
   Theorem reach_inv st : reach st -> Inv st.
   Proof. induction 1; [apply inv_init | eapply inv_step; eauto]. Qed.
 
+  Lemma run_reach (st st' : state) ls : reach st -> run st ls = Some st' -> reach st'.
+  Proof.
+    revert st. induction ls as [|l t IH]; simpl; intros st R H.
+    - inversion H; subst; auto.
+    - destruct (step st l) eqn:E; [|discriminate]. eapply IH; [|eauto]. eapply reach_step; eauto.
+  Qed.
+
+  Lemma run_app (st : state) l1 l2 :
+    run st (l1 ++ l2) = match run st l1 with Some st1 => run st1 l2 | None => None end.
+  Proof.
+    revert st. induction l1; simpl; intros; auto. destruct (step st a); auto.
+  Qed.
+
 End PubInv.
